@@ -898,6 +898,7 @@ func gen(r *hx.Rng, n int, tier string) []string {
 			}
 		}
 	}
+	lines = append(lines, genLong(r, tier)...) // directed long messages (long.go)
 	for c := 0; c < n; c++ {
 		x := r.Intn(100)
 		if r.Chance(5) { // a crypto/hmac object under an arbitrary Write/Sum/Reset sequence (hmacobj.go)
